@@ -289,7 +289,7 @@ def gen_project(rng, plan=None):
                 # the tied name is used below the try statement (own definition / main's print)
                 must.append(funcs[0] + '(%s)')
             features.add(tie)
-        if m is side_mod and funcs[0] not in m.bound:
+        if m is side_mod and funcs[0] not in m.bound and ('src', funcs[0]) not in m.bound:
             src = rng.choice(low[:2])
             if rng.random() < 0.7:
                 m.imports.append('from %s import %s' % (src.dotted, funcs[0]))
@@ -473,6 +473,57 @@ def _if_imported_spellings(files):
     return out
 
 
+def _module_level_bindings(code):
+    """spellings bound in the module's own scope (statements nested in if/try/with count, bodies of
+    functions and classes do not)"""
+    import ast
+    out = set()
+
+    def walk(stmts):
+        for n in stmts:
+            if isinstance(n, (ast.FunctionDef, ast.AsyncFunctionDef, ast.ClassDef)):
+                out.add(n.name)
+                continue
+            if isinstance(n, (ast.Import, ast.ImportFrom)):
+                for a in n.names:
+                    out.add(a.asname or a.name.split('.')[0])
+            elif isinstance(n, ast.Assign):
+                for t in n.targets:
+                    if isinstance(t, ast.Name):
+                        out.add(t.id)
+            for field in ('body', 'orelse', 'finalbody'):
+                walk(getattr(n, field, []) or [])
+            for h in getattr(n, 'handlers', []) or []:
+                walk(h.body)
+    walk(ast.parse(code).body)
+    return out
+
+
+def _binds(code, name):
+    return name in _module_level_bindings(code)
+
+
+def _aliased_and_bound(files, name):
+    """some module imports `name` under an alias (`from m import name as x`) and binds `name` itself"""
+    for code in files.values():
+        if re.search(r'\bimport\s+%s\s+as\s' % name, code) and _binds(code, name):
+            return True
+    return False
+
+
+_TRY_IMPORT = re.compile(r'^try:\n    from \S+ import (\w+)\nexcept ImportError:\n    from \S+ import (\w+)\n', re.M)
+
+
+def _tied_without_use(files, name):
+    """some module imports `name` in both arms of a module-level try/except ImportError and never
+    mentions it below"""
+    for code in files.values():
+        for m in _TRY_IMPORT.finditer(code):
+            if m.group(1) == m.group(2) == name and not re.search(r'\b%s\b' % name, code[m.end():]):
+                return True
+    return False
+
+
 def shape_of(files, rel, line, col, name):
     """syntactic class of the start occurrence (what known findings are matched by); decided on
     the project text and the cursor only, never on what jedi answered"""
@@ -482,6 +533,10 @@ def shape_of(files, rel, line, col, name):
         return 'start-is-import-alias'
     if name in _if_imported_spellings(files):
         return 'spelling-imported-in-both-branches-of-an-if'
+    if _aliased_and_bound(files, name):
+        return 'spelling-imported-under-alias-by-a-module-that-binds-it'
+    if _tied_without_use(files, name):
+        return 'spelling-imported-in-both-arms-of-try-except-and-not-used-below'
     return 'plain'
 
 
